@@ -200,6 +200,26 @@ func (muxerSlice) Gen(r *rand.Rand, _ int, tier string) ([]string, []string) {
 		}
 	}
 	ntpBase := int64(1600000000000) + int64(r.Intn(1000000))
+	// wall clock not an affine function of the media time: every write gets its own offset (clock adjustments,
+	// capture jitter), so that "the wall-clock time supplied with the segment's first unit" cannot be confused with a
+	// value extrapolated from another unit's
+	ntpNoise := r.Intn(4) == 0
+	if ntpNoise {
+		tags = append(tags, "ntp-not-affine")
+	}
+	noise := func(v int64) int64 {
+		if !ntpNoise {
+			return v
+		}
+		v += int64(r.Intn(1500)) - 500
+		if r.Intn(25) == 0 {
+			v += int64(r.Intn(120000)) - 60000
+		}
+		if v < 0 {
+			v = 0
+		}
+		return v
+	}
 	midGOP := r.Intn(4) == 0
 	if midGOP {
 		tags = append(tags, "mid-gop-start")
@@ -257,6 +277,7 @@ func (muxerSlice) Gen(r *rand.Rand, _ int, tier string) ([]string, []string) {
 		if ntp < 0 {
 			ntp = 0
 		}
+		ntp = noise(ntp)
 		fill := r.Intn(6)
 		if r.Intn(12) == 0 {
 			fill = 20 + r.Intn(400)
@@ -284,6 +305,7 @@ func (muxerSlice) Gen(r *rand.Rand, _ int, tier string) ([]string, []string) {
 			if ntp < 0 {
 				ntp = 0
 			}
+			ntp = noise(ntp)
 			size := mxH264Sizes(variant, bfBuildAUFor(t.codec, par, k, pay))
 			op = fmt.Sprintf("w t=%d pts=%d dts=%d ntp=%d ra=%s pic=1 par=%d pays=%d sizes=%d fill=0 bf=%d", best, pts, t.bfDTS[i], ntp, b01(ra), par, pay, size, k)
 			t.count++
@@ -310,6 +332,7 @@ func (muxerSlice) Gen(r *rand.Rand, _ int, tier string) ([]string, []string) {
 					if ntp < 0 {
 						ntp = 0
 					}
+					ntp = noise(ntp)
 					ra = true
 				}
 			}
